@@ -85,7 +85,12 @@ class WrapSys:
 
 def choose_action(ws: WrapSys, s_np: Any, ts_np: Any, rng: np.random.Generator, kill: bool, stats: Stats) -> Any:
     ad, env = ws.adapter, ws.env
+    drive = bool(ws.cfg.get("drive"))  # configurations in which clients play to win (episodes end by completion, repeatedly)
     if ad.mask_mode is None:
+        if kill or drive:
+            a = ad.policy_complete(s_np, env, rng, None)
+            if a is not None:
+                return a
         if not kill:
             a = ad.policy_survive(s_np, env, rng, None)
             if a is not None and rng.random() < 0.5:
@@ -97,6 +102,10 @@ def choose_action(ws: WrapSys, s_np: Any, ts_np: Any, rng: np.random.Generator, 
     if lo is None:
         return ad.inspec_action(env, rng)
     legal = lo if lo.any() else hi
+    if drive and rng.random() < 0.97:
+        a = ad.policy_complete(s_np, env, rng, legal)
+        if a is not None:
+            return a
     if kill:
         if ad.terminate_on_invalid and (~hi).any():
             bad = ~hi
@@ -184,6 +193,12 @@ class WrapRun:
             return
         # LAST: the state must be reset(k) for a key freshly derived from the terminal state's key
         self.stats.probe("auto_resets")
+        try:  # reach: how the episodes of this workload end (never part of a verdict)
+            for n in ws.adapter.events(util.to_np(s), a, util.to_np(exp_s), e_ts, ws.env, ws.cfg) or []:
+                if str(n).startswith("end"):
+                    self.stats.probe(f"ev:{ws.adapter.name}:{n}")
+        except Exception:  # noqa: BLE001
+            self.stats.probe("events_hook_error")
         match = None
         for name, k in ws.candidates(tkey):
             s0, ts0 = ws.ref_reset(k)
@@ -396,6 +411,12 @@ class WrapRun:
             if len(set(ks)) != len(ks):
                 self.fail("autoreset_history", "auto_reset_keys_repeat", f"client {i}: keys used by successive resets repeat: {ks[:4]}")
             self.stats.check("reset_key_histories")
+        # ... and across the clients of the run: their episode streams started from different keys, so two automatic resets
+        # from one and the same key mean that terminal states carry a key that does not depend on the episode
+        auto = [k for ks in self.reset_keys for k in ks[1:]]
+        if len(set(auto)) != len(auto):
+            dup = [k for k in set(auto) if auto.count(k) > 1][0]
+            self.fail("autoreset_history", "auto_reset_keys_repeat", f"automatic resets of different clients / episodes used the same key {dup}")
 
 
 def render_check(ws: WrapSys, run: WrapRun, stats: Stats) -> None:
@@ -558,7 +579,7 @@ def run_task(prop: Any, task: Dict[str, Any]) -> Dict[str, Any]:
         if deadline is not None and time.time() > deadline and i >= 2:
             break
         rng = util.sub_rng(task["seed"], mode, task["env"], cfg["id"], shard, i)
-        nseg = int(rng.integers(6, 25))
+        nseg = int(rng.integers(6, 25)) if not cfg.get("drive") else int(rng.integers(120, 200))
         resets_before = stats.probes.get("auto_resets", 0)
         steps_before = stats.steps
         try:
@@ -617,7 +638,7 @@ def run_task(prop: Any, task: Dict[str, Any]) -> Dict[str, Any]:
 def _regenerate(ws: WrapSys, mode: str, task: Dict[str, Any], cfg: Dict[str, Any], shard: int, i: int, B: int) -> Dict[str, Any]:
     """Determinism probe: re-run the generator for run i; the ops must be identical."""
     rng = util.sub_rng(task["seed"], mode, task["env"], cfg["id"], shard, i)
-    nseg = int(rng.integers(6, 25))
+    nseg = int(rng.integers(6, 25)) if not cfg.get("drive") else int(rng.integers(120, 200))
     ops, _ = generate_and_run(ws, mode, mode, rng, B, Stats(), nseg)
     return ops
 
